@@ -73,6 +73,8 @@ def recording_buffer_class():
     class RecordingBuffer(DataBuffer):
         """Keeps the log of add() calls; get_data returns a copy of it."""
 
+        keep = None      # a buffer that retains (and reports as its length) only the latest `keep` samples
+
         def __init__(self, max_queue_size):
             super().__init__(max_queue_size)
             self.log = []
@@ -84,7 +86,7 @@ def recording_buffer_class():
             return list(self.log)
 
         def __len__(self):
-            return len(self.log)
+            return len(self.log) if self.keep is None else min(len(self.log), self.keep)
 
         def save_state(self, path):
             path.mkdir()
@@ -294,6 +296,9 @@ def do_call(user, buf, kind, arg):
         return buf.log[n0:], r, str(r)
     if kind == "len":
         r = len(user)
+        if buf.keep is not None:
+            # the buffer reports what it retains; the model counts the adds
+            r = len(buf.log) if r == min(len(buf.log), buf.keep) else -r - 1
         return buf.log[n0:], r, str(r)
     raise ValueError(kind)
 
@@ -320,9 +325,18 @@ def run_seq(case: dict, driver):
     impl = ["ok"]
     with Patched(clock):
         bufs = {n: RB(m) for n in names}
-        users = DataUsersDict.from_data_buffers(bufs)
+        if "rereg_from" in case:
+            # the names were registered before with other buffers (another queue size) and are assigned again: the
+            # new data user comes with a collector of its own, bounded by its own buffer's queue size
+            users = DataUsersDict.from_data_buffers({n: RB(case["rereg_from"]) for n in names})
+            for n in names:
+                users[n] = di.DataUser(bufs[n])
+        else:
+            users = DataUsersDict.from_data_buffers(bufs)
         cdict = users.data_collectors_dict
         user, buf = users[names[0]], bufs[names[0]]
+        if case.get("keep") is not None:
+            buf.keep = case["keep"]
         col = None
         n_col = 0
         j = 0
@@ -401,7 +415,12 @@ def gen_seq(rng, max_ops=14) -> dict:
                 ops.append(["acquire", rng.choice(["a", "b", "b", "zz"])])
             else:
                 ops.append([kind])
-    return {"kind": "seq", "m": m, "names": names, "ops": ops}
+    case = {"kind": "seq", "m": m, "names": names, "ops": ops}
+    if rng.random() < 0.25:
+        case["rereg_from"] = rng.choice([0, 1, 2])
+    if rng.random() < 0.3:
+        case["keep"] = rng.choice([0, 1, 2])
+    return case
 
 
 def seq_features(case, record):
